@@ -344,6 +344,103 @@ def model_write(ctx, dicts):
                 ctx.disagree("XmlFormatter.populate_into_element", {"kind": "dict", "t": d}, repr(m)[:800], repr(got)[:800])
 
 
+def with_extra_ns(rng, xml: str) -> str:
+    """further namespace declarations on the root element (declared, not used by any tag): a prefix literally called
+    None, a second prefix, a default namespace next to a prefixed one"""
+    extra = rng.choice([' xmlns:None="urn:none"', ' xmlns:extra="urn:extra"', ' xmlns:None="urn:none" xmlns:z="urn:z"', ""])
+    head, sep, rest = xml.partition("?>\n")
+    i = rest.index(">")
+    if rest[i - 1] == "/":
+        i -= 1
+    return head + sep + rest[:i] + extra + rest[i:]
+
+
+def model_read_doc(ctx, xmls):
+    """XmlParser.parse_string, document level (nodes + the `_xmlOpts` entry: namespaces, root tag, root attributes,
+    numbering flag): implementation on the text vs `Xml.parse_doc` on the namespace map and element tree the XML
+    libraries see"""
+    from lxml import etree as LET
+
+    dictIO = native.dictio()
+    mlines, ilines, cases = [], [], []
+    for xml in xmls:
+        root = ET.fromstring(xml.encode("utf-8"))
+        nsmap = list(LET.fromstring(xml.encode("utf-8")).nsmap.items())
+        nb = ctx.rng.random() < 0.75
+        native.set_counter(-1)
+        line = f"xml_parse_doc {wire.enc_bool(nb)} i-1 {wire.enc_list([k for k, _ in nsmap], lambda k: wire.enc_opt(k, wire.enc_str))} " \
+               f"{wire.enc_list([u for _, u in nsmap], wire.enc_str)} {enc_elem(root)}"
+        try:
+            d = dict(dictIO.XmlParser(add_node_numbering=nb).parse_string(xml, dictIO.SDict()))
+            cnt = native.counter_value()
+        except Exception as e:  # noqa: BLE001
+            mlines.append(line)
+            ilines.append("raise " + type(e).__name__)
+        else:
+            try:
+                enc = wire.enc_tree(gen.plain(d))
+            except TypeError:
+                continue          # numbering off and a tag that types to a bool / None key: outside the value model (DESIGN, model restrictions)
+            mlines.append(line)
+            ilines.append(enc + f" i{cnt}")
+        cases.append({"kind": "doc-level", "xml": xml, "numbering": nb})
+    mout = wire.run_model_sharded(mlines)
+    ctx.compare("XmlParser.parse_string (document level)", cases, mout, ilines)
+
+
+def xml_opts_variants(rng, d: dict) -> dict:
+    d = copy.deepcopy(d)
+    o = {}
+    if rng.random() < 0.7:
+        o["_rootTag"] = rng.choice(["Root", "cfg", "a.b", True, "NOTSPECIFIED", "_r"])
+    if rng.random() < 0.6:
+        ra = {}
+        for k in rng.sample(["version", "id", "flag", "empty", "n"], rng.randrange(0, 4)):
+            ra[k] = rng.choice(["1.0", "", "True", "x y", 3, 2.5, True, None, "none"])
+        o["_rootAttributes"] = ra
+    if rng.random() < 0.6:
+        o["_nameSpaces"] = rng.choice([{"xs": NS_URI}, {"None": "urn:d"}, {"n": "urn:n", "None": "urn:d"}, {"None": "urn:d", "q": "urn:q"}, {"on": NS_URI}])
+    if rng.random() < 0.2:
+        o["_removeNodeNumbering"] = True
+    if rng.random() < 0.2:
+        o["_addNodeNumbering"] = rng.choice([True, False])
+    if rng.random() < 0.85:
+        d["_xmlOpts"] = o
+        if rng.random() < 0.3:
+            d = {"_xmlOpts": d.pop("_xmlOpts"), **d}
+    if rng.random() < 0.25:
+        d["_attributes"] = rng.choice([{"top": "1"}, {"top": ""}, {}, {"a": True, "b": "x"}])
+    return d
+
+
+def model_write_doc(ctx, dicts):
+    """XmlFormatter.to_string, document level: the namespace the tags are put in, root tag, root attributes and the
+    element tree, `Xml.format_doc` vs what lxml / xml.etree see in the implementation's output"""
+    from lxml import etree as LET
+
+    dictIO = native.dictio()
+    mlines = [f"xml_format_doc {wire.enc_tree(d)}" for d in dicts]
+    mout = wire.run_model_sharded(mlines)
+    for d, ml in zip(dicts, mout):
+        ctx.corr_compared += 1
+        try:
+            xml = dictIO.XmlFormatter().to_string(copy.deepcopy(d))
+            nsmap = list(LET.fromstring(xml.encode("utf-8")).nsmap.items())
+            got = (nsmap, et_shape(ET.fromstring(xml.encode("utf-8"))))
+        except Exception as e:  # noqa: BLE001
+            got = ("raise", type(e).__name__)
+        rd = wire.Reader(ml)
+        if rd.next() == "none":
+            m = ("outside",)
+            if got[0] == "raise":
+                continue              # outside the model and the library raises: nothing to compare
+        else:
+            pfx, uri = rd.str(), rd.str()
+            m = ([(None if pfx == "None" else pfx, uri)], model_shape(dec_elem(rd)))
+        if m != got and len(ctx.disagreements) < 20:
+            ctx.disagree("XmlFormatter.to_string (document level)", {"kind": "dict-doc", "t": d}, repr(m)[:800], repr(got)[:800])
+
+
 def run(ctx):
     rng = ctx.rng
     xmls, dicts = [], []
@@ -377,6 +474,14 @@ def run(ctx):
         except Exception:  # noqa: BLE001
             pass
     model_write(ctx, dicts[: ctx.n(300, 3000)] + parsed)
+    model_read_doc(ctx, [with_extra_ns(rng, x) if i % 3 == 0 else x for i, x in enumerate(xmls[: ctx.n(200, 2000)])])
+    withopts = []
+    for xml in xmls[: ctx.n(150, 1500)]:
+        try:
+            withopts.append(gen.plain(dict(dictIO.XmlParser().parse_string(xml, dictIO.SDict()))))
+        except Exception:  # noqa: BLE001
+            pass
+    model_write_doc(ctx, withopts + [xml_opts_variants(rng, d) for d in (dicts[: ctx.n(150, 1500)] + parsed[: ctx.n(100, 1000)])])
     for k in ("doc:none", "doc:default", "doc:prefixed", "dict"):
         if ctx.classes[k] == 0:
             raise RuntimeError("generator starved")
